@@ -763,6 +763,28 @@ func runC04NonZeroCode(c *Ctx) {
 				return true
 			}
 		}
+		// a parameter of a helper: non-zero if every caller passes a value known to be non-zero
+		if pr, ok := v.(*ssa.Parameter); ok {
+			idx := -1
+			for i, q := range pr.Parent().Params {
+				if q == pr {
+					idx = i
+				}
+			}
+			callers := p.Callers(pr.Parent())
+			if idx < 0 || len(callers) == 0 {
+				return false
+			}
+			for _, e := range callers {
+				if e.Kind != "static" || e.Site == nil || idx >= len(e.Site.Common().Args) {
+					return false
+				}
+				if !nonZero(e.Site.Common().Args[idx], e.Site.Block(), depth+1) {
+					return false
+				}
+			}
+			return true
+		}
 		if ph, ok := v.(*ssa.Phi); ok {
 			for i, e := range ph.Edges {
 				if i >= len(ph.Block().Preds) || !nonZero(e, ph.Block().Preds[i], depth+1) {
